@@ -334,6 +334,31 @@ Proof.
   split; [|split; [|exact Hr]]; apply dest_bearing_deg; try assumption; lra.
 Qed.
 
+(* the scheduled angle grows strictly with the index: along the outer arc (walked from index k down to 0)
+   and along the inner arc the bearings are strictly monotone, i.e. the points come in angular order *)
+Lemma ring_angle_deg_mono s k i1 i2 :
+  (0 < k)%nat -> (i1 < i2)%nat -> r_amin s < r_amax s -> ring_angle_deg s k i1 < ring_angle_deg s k i2.
+Proof.
+  intros Hk Hi Hm. unfold ring_angle_deg. apply INR_pos in Hk.
+  assert (INR i1 < INR i2) by (apply lt_INR; exact Hi).
+  assert (0 < / INR k) by (apply Rinv_0_lt_compat; lra).
+  assert (0 < (r_amax s - r_amin s) * / INR k) by (apply Rmult_lt_0_compat; lra).
+  unfold Rdiv. apply Rplus_lt_compat_l. apply Rmult_lt_compat_l; assumption.
+Qed.
+
+Theorem ring_pts_angular_order s k i1 i2 :
+  -90 < lat (r_center s) < 90 -> 0 < r_inner s <= r_outer s -> r_outer s < PI * Rearth ->
+  (0 < k)%nat -> (i1 < i2)%nat -> (i2 <= k)%nat -> 0 <= r_amin s -> r_amin s < r_amax s -> r_amax s < 360 ->
+  (forall i, -90 < lat (ring_outer_pt s k i) < 90) -> (forall i, -90 < lat (ring_inner_pt s k i) < 90) ->
+  bearing_raw (r_center s) (ring_outer_pt s k i1) < bearing_raw (r_center s) (ring_outer_pt s k i2) /\
+  bearing_raw (r_center s) (ring_inner_pt s k i1) < bearing_raw (r_center s) (ring_inner_pt s k i2).
+Proof.
+  intros H1 H2 H3 Hk Hi Hi2 Ha Hm Hx Ho Hn.
+  destruct (ring_pts_bearing s k i1 H1 H2 H3 Hk ltac:(lia) ltac:(lra) Hx (Ho i1) (Hn i1)) as (A1 & B1 & _).
+  destruct (ring_pts_bearing s k i2 H1 H2 H3 Hk Hi2 ltac:(lra) Hx (Ho i2) (Hn i2)) as (A2 & B2 & _).
+  rewrite A1, A2, B1, B2. split; apply ring_angle_deg_mono; assumption.
+Qed.
+
 (* full ring: first generated point = last *)
 Theorem ring_first_last s k :
   (0 < k)%nat -> r_amin s = 0 -> r_amax s = 360 ->
